@@ -594,9 +594,6 @@ func (h *httpServerHandler) handleGet(ctx context.Context, w http.ResponseWriter
 	// Set SSE response headers
 	sseutil.SetStandardHeaders(w)
 	w.Header().Set(httputil.SessionIDHeader, session.GetID())
-	w.WriteHeader(http.StatusOK)
-	flusher.Flush()
-	verifYield("get:flushed", r)
 
 	// Create context, for canceling connection
 	connCtx, cancelConn := context.WithCancel(ctx)
@@ -623,6 +620,14 @@ func (h *httpServerHandler) handleGet(ctx context.Context, w http.ResponseWriter
 	h.getSSEConnections[session.GetID()] = conn
 	h.getSSEConnectionsLock.Unlock()
 	verifYield("get:stored", r)
+
+	// Send the response headers only now that the connection is registered: a client that has
+	// received them may rely on notifications addressed to the session reaching this stream.
+	conn.writeLock.Lock()
+	w.WriteHeader(http.StatusOK)
+	flusher.Flush()
+	conn.writeLock.Unlock()
+	verifYield("get:flushed", r)
 
 	// Record connection information
 	h.logger.Infof("Established GET SSE connection, session ID: %s", session.GetID())
